@@ -29,7 +29,8 @@ CHECKS = {
             'reproduce every transition (finished operation carrying an error, FAILED early-stopping operation, later calls reach the algorithm again).',
             'Fault injection through the public PolicyFactory; deployments are in-process servers on localhost; client polling interval patched to 0.'),
     'C10': (MC, '5 C10', 'TLA+ Spec A metadata actions (study/trial deltas, algorithm-issued metadata) exhaustive TLC + replay + trace validation; '
-            'Namespace.tla: contract and transcription of Namespace.encode/_parse model-checked over all small namespaces and judged on observations of the real code',
+            'Namespace.tla: contract and transcription of Namespace.encode/_parse model-checked over all small namespaces and judged on observations of the real code; '
+            'MetadataStore.tla: the vz.Metadata object (shared table, namespace handles, attach) model-checked, every transition replayed and every observer compared',
             'Last-writer-wins, isolation and failed-update-is-no-op are action properties on the model; namespaces: every namespace with <= 2 (thorough 3) '
             'components of <= 2 characters over {a, :, \\\\, e-acute} is encoded/decoded by the real code and judged by TLC (round trip, injectivity, conformance).',
             'Cells are 4 fixed (namespace,key) pairs incl. escaped-colon and algorithm namespaces; values v1/v2/empty string. Known finding F4 (trailing backslash) is listed in known_findings.jsonl.'),
